@@ -2166,6 +2166,10 @@ func (cs Conditions) inlineTagFilter(tags map[string]TagDetails) ConditionsSet {
 			continue
 		}
 		tagConditionsSet := td.Conditions.InlineTagFilters(tags)
+		if len(tagConditionsSet) == 0 {
+			// the tag can never match, its negation matches everything
+			tagConditionsSet = ConditionsSet{Conditions{&impossibleCondition}}
+		}
 		//TODO: rename subqueries in tagConditionsSet to not collide with the normal query
 		if c.Accept&uncertain == TagConditionAcceptUncertainFailing {
 			tagConditionsSet = tagConditionsSet.invert()
